@@ -36,6 +36,11 @@ func init() {
 			{ID: "C10.R14", Text: "Couchbase membership, one monitor round: a live instance is recorded at its own index, a missing document is skipped, any other read/parse error stops the client, Done exactly once; then changed → updateIndex(list, index CAS) → ok: rebalance(same list) | CAS mismatch: monitor again", Run: cbmMonitorRound},
 			{ID: "C10.R15", Text: "Couchbase membership, registration: index entry → update | update(key not found) → create → update; every remaining error stops the client", Run: cbmRegister},
 			{ID: "C10.R16", Text: "the numbering a member works with: GetInfo returns the recorded membership when there is one and otherwise waits for the first announcement (exhaustive, all bus-fed implementations)", Run: infoGetters},
+			{ID: "C10.R17", Text: "a member gets its first numbering: every bus-fed membership records each announcement and hands it over to a waiting GetInfo ⇔ nothing was recorded before (exhaustive)", Run: firstInfoHandOver},
+			{ID: "C10.R18", Text: "Couchbase membership, what a round works on: index parsed only if read, instances read only if parsed; the live list is the non-nil recorded instances; updateIndex writes under the given CAS and returns the store's error; the kept join time is the one written to the index; the readers are awaited (Add per spawn, Done once, Wait)", Run: func(c *Ctx, id string) {
+				cbmRoundInputs(c, id)
+				workersSignal("couchbase.cbMembership).monitor")(c, id)
+			}},
 			{ID: "C10.R5", Text: "Couchbase membership: lastActiveInstances is written only in the numbering step after the publish decision; on CAS mismatch the round is restarted (monitor re-entered), nothing is rewritten", Run: c10r5},
 		},
 	})
